@@ -123,6 +123,8 @@ func (m *muxProvider) Start() {
 				var session *yamux.Session
 				session, err = m.sessionFn(conn)
 				if err != nil {
+					// No session took ownership of the conn: close it here, nobody else will
+					_ = conn.Close()
 					if m.lifetime.Err() != nil {
 						return
 					}
@@ -133,6 +135,9 @@ func (m *muxProvider) Start() {
 				// Force Yamux to actually send something on the conn to make sure it's alive
 				_, err = session.Ping()
 				if err != nil {
+					// Make sure session & conn close on error, also when we are about to return because of shutdown
+					_ = session.Close()
+					_ = conn.Close()
 					if m.lifetime.Err() != nil {
 						return
 					} else if errors.Is(err, yamux.ErrConnectionWriteTimeout) {
@@ -147,9 +152,6 @@ func (m *muxProvider) Start() {
 						m.logger.Warn("Unknown error", tag.Error(err), tag.NewStringTag("remoteAddr", common.GetHost(session.RemoteAddr().String())))
 						metrics.MuxErrors.WithLabelValues(append(m.metricLabels, "unknown")...).Inc()
 					}
-					// Make sure session & conn close on error
-					_ = session.Close()
-					_ = conn.Close()
 					m.muxPermits.Release(1)
 					continue connect
 				}
